@@ -39,10 +39,12 @@ structure VHeader where
   objLen : Int             -- `len(self)`
   deriving Repr, DecidableEq
 
+def headerEnv (h : VHeader) (s : String) : Option Int :=
+  if s == "tag" then some h.tag else if s == "length" then some h.length
+  else if s == "version" then some h.version else none
+
 def verifyHeader (tags versions : List Nat) (h : VHeader) : List String :=
-  failed AhabConsts.recsHeader
-      (fun s => if s == "tag" then some h.tag else if s == "length" then some h.length
-                else if s == "version" then some h.version else none)
+  failed AhabConsts.recsHeader (headerEnv h)
     ++ (if tags.any (fun t => (t : Int) == h.tag) then [] else ["Tag value"])
     ++ (if h.objLen == h.length then [] else ["Computed length"])
     ++ (if versions.any (fun t => (t : Int) == h.version) then [] else ["Version value"])
@@ -61,16 +63,18 @@ structure VIae where
   hashOk : Bool            -- outcome of the "Image hash" record (cryptographic part, an input)
   deriving Repr, DecidableEq
 
+def iaeEnv (e : VIae) (s : String) : Option Int :=
+  if s == "_image_offset" then some e.imageOffset else if s == "image_size" then some e.imageSize
+  else if s == "load_address" then some e.loadAddress else if s == "entry_point" then some e.entryPoint
+  else if s == "flags" then some e.flags else if s == "image_meta_data" then some e.metaData else none
+
 def verifyIae (ch : Chip) (v : Ver) (e : VIae) : List String :=
   let valid : Nat :=
     if e.imageLen = 0 then 0
     else if e.sizeAlign ≠ 0 then alignNat e.imageLen e.sizeAlign
     else alignNat e.imageLen (if ch.isEle v e.flags.toNat then 4 else 1)
   (if (valid : Int) == e.imageSize then [] else ["Image"])
-    ++ failed AhabConsts.recsIae
-        (fun s => if s == "_image_offset" then some e.imageOffset else if s == "image_size" then some e.imageSize
-                  else if s == "load_address" then some e.loadAddress else if s == "entry_point" then some e.entryPoint
-                  else if s == "flags" then some e.flags else if s == "image_meta_data" then some e.metaData else none)
+    ++ failed AhabConsts.recsIae (iaeEnv e)
     ++ (if e.hashOk then [] else ["Image hash"])
 
 /-! ### signature block -/
@@ -101,6 +105,13 @@ structure VSigBlock where
   blobData : Option VBlob
   deriving Repr, DecidableEq
 
+def sbRecs (v : Ver) : List AhabConsts.RangeRec := match v with | .v1 => AhabConsts.recsSigBlock | .v2 => AhabConsts.recsSigBlockV2
+
+/-- environment for the "Offset" record of `verify_block` (the other record of the table is not looked at there) -/
+def offsetEnv (off : Int) (s : String) : Option Int := if s == "offset" then some off else some 0
+/-- environment for the "Key identifier" record -/
+def keyIdEnv (kid : Int) (s : String) : Option Int := if s == "blob.key_identifier" then some kid else some 0
+
 /-- `verify_block(name, obj, min_offset, offset)`; `sub` = the errors of the block's own verifier (run only when the
     block exists and its presence matches its offset) -/
 def verifyBlock (v : Ver) (name : String) (b : VBlock) (minOff : Int) (sub : List String) : List String :=
@@ -109,14 +120,15 @@ def verifyBlock (v : Ver) (name : String) (b : VBlock) (minOff : Int) (sub : Lis
   else
     (if b.offset < minOff then [name ++ ": Offset"]
      else if v == .v1 && b.offset % (AhabConsts.containerAlignment : Int) != 0 then [name ++ ": Offset"]
-     else (failed (match v with | .v1 => AhabConsts.recsSigBlock | .v2 => AhabConsts.recsSigBlockV2)
-             (fun s => if s == "offset" then some b.offset else some 0)).filter (· == "Offset") |>.map (name ++ ": " ++ ·))
+     else (failed (sbRecs v) (offsetEnv b.offset)).filter (· == "Offset") |>.map (name ++ ": " ++ ·))
     ++ (if b.subOk then [] else [name ++ ": content"]) ++ sub
+
+def blobEnv (b : VBlob) (s : String) : Option Int := if s == "mode" then some b.mode else none
 
 def verifyBlob (b : VBlob) : List String :=
   verifyHeader [AhabConsts.blobTag] [AhabConsts.blobVersion] b.hdr
     ++ (if AhabConsts.blobKeySizes.any (fun t => (t.2.1 : Int) == b.size) then [] else ["Key size"])
-    ++ failed AhabConsts.recsBlob (fun s => if s == "mode" then some b.mode else none)
+    ++ failed AhabConsts.recsBlob (blobEnv b)
     ++ (match b.dekLen with
         | some n => if (n : Int) == Int.fdiv b.size 8 then [] else ["DEK key"]
         | none => [])
@@ -136,8 +148,7 @@ def verifySigBlock (v : Ver) (sb : VSigBlock) : List String :=
     ++ (match sb.blobData with
         | some b =>
           (if sb.blob.present then
-            (failed (match v with | .v1 => AhabConsts.recsSigBlock | .v2 => AhabConsts.recsSigBlockV2)
-              (fun s => if s == "blob.key_identifier" then some b.keyIdentifier else some 0))
+            (failed (sbRecs v) (keyIdEnv b.keyIdentifier))
            else [])
         | none => [])
 
@@ -156,15 +167,17 @@ structure VContainer where
 /-- `(flags >> off) & mask` on a Python integer (two's complement for negative values) -/
 def getFI (x : Int) (off size : Nat) : Int := (x >>> off) % (2 ^ size : Nat)
 
+def containerEnv (v : Ver) (c : VContainer) (s : String) : Option Int :=
+  if s == "flags" then some c.flags else if s == "sw_version" then some c.swVersion
+  else if s == "fuse_version" then some c.fuseVersion
+  else if s == "flag_used_srk_id" then some (getFI c.flags AhabConsts.cFlagsUsedSrkIdOffset AhabConsts.cFlagsUsedSrkIdSize)
+  else if s == "flag_srk_revoke_keys" then some (getFI c.flags AhabConsts.cFlagsSrkRevokeMaskOffset AhabConsts.cFlagsSrkRevokeMaskSize)
+  else if s == "_signature_block_offset" then some (sigBlockOffset v c.images.length : Nat)
+  else none
+
 def verifyContainer (ch : Chip) (v : Ver) (c : VContainer) : List String :=
   verifyHeader [AhabConsts.containerTag] [v.containerVersion] c.hdr
-    ++ failed AhabConsts.recsContainer
-        (fun s => if s == "flags" then some c.flags else if s == "sw_version" then some c.swVersion
-                  else if s == "fuse_version" then some c.fuseVersion
-                  else if s == "flag_used_srk_id" then some (getFI c.flags AhabConsts.cFlagsUsedSrkIdOffset AhabConsts.cFlagsUsedSrkIdSize)
-                  else if s == "flag_srk_revoke_keys" then some (getFI c.flags AhabConsts.cFlagsSrkRevokeMaskOffset AhabConsts.cFlagsSrkRevokeMaskSize)
-                  else if s == "_signature_block_offset" then some (sigBlockOffset v c.images.length : Nat)
-                  else none)
+    ++ failed AhabConsts.recsContainer (containerEnv v c)
     ++ (match c.sb with | some sb => verifySigBlock v sb | none => [])
     ++ (if c.images.isEmpty then ["Image array"] else c.images.flatMap (verifyIae ch v))
 
